@@ -2,5 +2,7 @@
 # run every claimed check (quick tier) and print one line each
 cd /verif || exit 2
 for p in $(/venv/bin/python -c "import json;print(' '.join(c['property_id'] for c in json.load(open('/verif/MANIFEST.json'))['checks']))" 2>/dev/null); do
-  ./check $p --tier ${1:-quick} 2>&1 | grep -v "^WARNING" | tail -1 | cut -c1-200
+  out=$(./check $p --tier ${1:-quick} 2>&1); rc=$?
+  echo "$out" | grep -v "^WARNING" | grep "^ANALYSIS-ERROR\|^VIOLATION" | cut -c1-200
+  echo "$(echo "$out" | grep -v "^WARNING" | grep "^\[$p\] " | tail -1 | cut -c1-160) exit=$rc"
 done
